@@ -144,6 +144,8 @@ class Zoo(object):
         else:
             # seeded sampling of initial points (seed 0 is a seed)
             s_init = int(rng.choice([0, 0, 1, 7]))
+            if rng.random() < 0.4:
+                s_init = np.int64(s_init)       # a seed taken from an integer array is a seed
             ev['init'] = lambda m, x: m.sample_initial_parameters(n_samples=2, seed=s_init)
         k = build().n_parameters()
         return ('LogPosterior' if posterior else 'LogLikelihood'), build, ev, \
@@ -171,6 +173,8 @@ class Zoo(object):
         ev = {'call': lambda m, x: m(x), 's1': lambda m, x: m.evaluateS1(x)}
         if posterior:
             s_init = int(rng.choice([0, 0, 1, 7]))
+            if rng.random() < 0.4:
+                s_init = np.int64(s_init)       # a seed taken from an integer array is a seed
             ev['init'] = lambda m, x: m.sample_initial_parameters(n_samples=2, seed=s_init)
         k = build().n_parameters()
         return ('HierarchicalLogPosterior' if posterior else 'HierarchicalLogLikelihood'), build, ev, \
@@ -578,6 +582,8 @@ def controller_request_order(ctx, chi, rng):
                 rows.append({'ID': i, 'Time': float(t), 'Observable': np.nan, 'Value': np.nan,
                              'Dose': float(rng.uniform(1, 5)), 'Duration': float(rng.choice([0.01, 0.5]))})
     df = pd.DataFrame(rows)
+    if rng.random() < 0.5:
+        df.index = rng.integers(0, 4, len(df))      # repeated row labels (a frame glued from pieces)
     order1 = [ids[j] for j in rng.permutation(3)]
     order2 = list(reversed(order1))
     c1, c2 = controller(), controller()
